@@ -268,6 +268,13 @@ def families():
     F['setup'] = S.single(P, 0.5, power=_PW2, setup=copy.deepcopy(F['full_a']['setup']))
     F['setup']['setup']['AssemblyTables'] = {'t1': {'type': 'coolant_subchannel', 'assemblies': [1],
                                                     'axial_positions': [0.1, 0.3]}}
+    # every optional dimensional Setup key ALONE (a conversion must not depend on another key being given)
+    F['setup_mesh'] = S.single(P, 0.5, power=_PW2, setup={'axial_mesh_size': 0.005})
+    F['setup_plane'] = S.single(P, 0.5, power=_PW2, setup={'axial_plane': [0.05, 0.125, 0.33]})
+    F['setup_dump'] = S.single(P, 0.5, power=_PW2, setup={'Dump': {'coolant': True, 'interval': 0.02}})
+    F['setup_cutoff'] = S.single(P, 0.5, power=_PW2, setup={'conv_approx': True, 'conv_approx_dz_cutoff': 0.002})
+    F['setup_tables'] = S.single(P, 0.5, power=_PW2, setup={'AssemblyTables': {
+        't1': {'type': 'coolant_subchannel', 'assemblies': [1], 'axial_positions': [0.1, 0.3]}}})
     F['regions'] = S.single(S.design(2, regions=_REG2), 0.5, power=_PW2)
     F['regions_noeps'] = S.single(S.design(2, regions=_REG_NOEPS), 0.5, power=_PW2)
     F['spacer'] = S.single(S.design(2, wire=False, corr=('CTD', 'CTD', 'CTD'),
@@ -321,7 +328,8 @@ def families():
 
 DATA_FAMILIES = ('full_a', 'full_b', 'core_min', 'setup', 'regions', 'regions_noeps', 'spacer', 'spacer_sol', 'fuelmodel',
                  'fuelmodel_fc', 'pinmodel', 'pinmodel_fc', 'bc_outlet', 'bc_delta', 'orificing', 'multiduct', 'cold_nak',
-                 'range_flow', 'range_outlet', 'range_delta')
+                 'range_flow', 'range_outlet', 'range_delta',
+                 'setup_mesh', 'setup_plane', 'setup_dump', 'setup_cutoff', 'setup_tables')
 SWEEP_FAMILIES = ('sw_single', 'sw_core7')
 QUICK_SWEEPS = (('cm', 'celsius', 'kg/s'), ('mm', 'fahrenheit', 'lb/min'), ('in', 'kelvin', 'lb/hr'),
                 ('ft', 'celsius', 'kg/s'), ('m', 'fahrenheit', 'kg/s'))
